@@ -778,6 +778,11 @@ def run_once(sc):
                     hits.hit("C05", "upload.failed", f"open() -> {outcome}: {type(res).__name__}: {res} "
                              f"({getattr(res, '__cause__', None)!r})", what="exception" if outcome != "ok" else "false")
                     evals["C05"] += 1
+                    if sc.get("prop") in ("C01", "C02", "C03", "C04", "C09"):
+                        # nothing of this controller can be read or written at all
+                        hits.hit(sc["prop"], "setup", f"open() against a healthy controller -> {outcome}: "
+                                 f"{type(res).__name__}: {res}", what="open")
+                        evals[sc["prop"]] += 1
                     break
             elif kind == "mutate_project":
                 # the program in the controller changes between two uploads (e.g. a download): every structure
@@ -1301,6 +1306,7 @@ def directed(tier, prop):
         out += directed_struct_sizes(tier)
         out += directed_multi_fill(tier)
         out += directed_borrowed(tier)
+        out += directed_boolarr(tier)
     if prop == "C03":
         out += directed_shapes()
         out += directed_sizes_mixed()
@@ -1509,6 +1515,33 @@ def directed_borrowed(tier):
                         "net": {"chunk": "whole", "send": "all", "latency": "zero"},
                         "driver": {"cls": "LogixDriver", "path": "10.0.0.1", "init_tags": True, "init_program_tags": False,
                                    "log": "off", "seq_advance": 0}, "ops": ops, "faults": [], "bystander": by})
+    return out
+
+
+def directed_boolarr(tier):
+    """C04: a BOOL-array read is answered with whole DWORDs from the array's first one, whatever start bit was asked
+    for: reads of a few bits near the end of arrays whose DWORD count sits around the connection size"""
+    out = []
+    for cs, large in ((500, False), (4000, True)):
+        for nd in range(cs // 4 - 6, cs // 4 + 6):
+            tags = [{"name": "flags", "type": "DWORD", "dims": [nd]}, {"name": "small", "type": "DINT", "dims": []}]
+            world = base_world(tags, large=large)
+            small = {"scope": None, "tag": "small", "idx": None, "path": [], "bit": None, "count": None}
+            ops = [{"id": "o0", "kind": "open"}]
+            k = 0
+            for start, cnt in ((32 * (nd - 2), 64), (32 * nd - 40, 33), (32 * (nd - 1) + 3, 2), (0, 32 * nd)):
+                if start < 0:
+                    continue
+                ast = {"scope": None, "tag": "flags", "idx": [start] if start else None, "path": [], "bit": None, "count": cnt}
+                q = {"text": render(ast)[0], "ast": ast, "invalid": None}
+                k += 1
+                ops.append({"id": f"r{k}", "kind": "read", "reqs": [q]})
+                ops.append({"id": f"m{k}", "kind": "read", "reqs": [{"text": "small", "ast": small, "invalid": None}, dict(q)]})
+            ops.append({"id": "oz", "kind": "close"})
+            out.append({"engine": "logix", "seed": 6000 + nd, "prop": "C04", "world": world,
+                        "net": {"chunk": "whole", "send": "all", "latency": "zero"},
+                        "driver": {"cls": "LogixDriver", "path": "10.0.0.1", "init_tags": True, "init_program_tags": False,
+                                   "log": "off", "seq_advance": 0}, "ops": ops, "faults": []})
     return out
 
 
